@@ -23,6 +23,10 @@ ObsUtxoIsReplay == ValidChainB(blk, Post.tip) => PostUtxo = UtxoList(ReplayB(blk
 ObsNoInflation == LET tot == [k |-> SumS([i \in 1..Len(Post.utxo) |-> Post.utxo[i].k]), s |-> SumS([i \in 1..Len(Post.utxo) |-> Post.utxo[i].s])]
                   IN VLe(tot, [k |-> HeightB(blk, Post.tip) - H0, s |-> BaseTotal])
 ObsNoFailedInChain == AncB(blk, Post.tip) \cap ToSet(Post.failed) = {}
+\* C08 on histories with transactions: the observed tip has at least the work of every delivered block whose chain is valid by the
+\* rules and was not manually invalidated (inv = blocks under a manual invalidation according to the action history)
+Inv == ToSet(ObsLines[idx].inv)
+ObsTipMostWork == \A b \in 1..n : (ValidChainB(blk, b) /\ AncB(blk, b) \cap Inv = {}) => HeightB(blk, b) <= HeightB(blk, Post.tip)
 \* C05 "the boundary cases behave as specified": the node activates exactly the tip the rules predict
 ObsTipExact == Post.tip = Exp.tip
 ====
